@@ -20,24 +20,62 @@ from .dflow import DCheck, one_violation
 PROFILE = {
     "max_stages": 6, "joins": ["AND", "AND", "DISCRIMINATOR", "N_OF_M"],
     "behaviours": {"ok": 10, "fail_terminal": 1, "fail_continue": 1, "poller": 3, "transient": 2, "exc": 0},
-    "synth_p": 0.25, "loop_p": 0.1, "or_split_p": 0.1,
+    "synth_p": 0.25, "loop_p": 0.2, "or_split_p": 0.1,
 }
 
 
 def setup(ex: Exec, ch: Choices, info: dict[str, Any]) -> None:
     w = ex.world
     at = ch.pick("cancel.at", 60)
-    info["cancel_at_step"] = at
+    # a third of the runs: the cancel arrives at the moment a JumpToStage is waiting in the queue (the jump then travels
+    # through the cancel's fan-out of CancelStage messages, in whatever order the schedule picks)
+    has_jump = any(t.get("b") == "jumper" for r in ex.program.order for t in ex.program.task_specs(r))
+    on_jump = ch.pick("cancel.onjump", 3) != 2 and has_jump      # two thirds of the programs that jump at all
+    info["cancel_at_step"] = "on-jump-queued" if on_jump else at
     info["cancel_requested"] = True
     n = [0]
+    fired = [False]
 
     def between(eng: Any) -> None:
-        if n[0] == at:
+        hit = n[0] == at
+        if on_jump:
+            hit = (not fired[0]) and bool(w.hquery("SELECT 1 FROM queue_messages WHERE message_type = 'JumpToStage' LIMIT 1"))
+        if hit:
+            fired[0] = True
             with w.as_client("client-cancel"):
                 wf = w.store.retrieve(ex.wf_id)
                 w.orchestrator.cancel(wf, "sim", "c17")
             w.fault("cancel_request")
+            if on_jump and directed:
+                # transport delay on the waiting jump: the cancel request overtakes it
+                _delay("JumpToStage", None, 0.25)
+        elif on_jump and directed and fired[0] and not shaped[0]:
+            # once the cancel has fanned out: the CancelStage of the jumping stage is delayed beyond the jump, the others
+            # are not - the jump lands between them (all of it plain message delay)
+            rows = w.hquery("SELECT id, payload FROM queue_messages WHERE message_type = 'CancelStage'")
+            jrow = w.hquery("SELECT payload FROM queue_messages WHERE message_type = 'JumpToStage' LIMIT 1")
+            if rows and jrow:
+                import json as _json
+
+                src = _json.loads(jrow[0]["payload"] or "{}").get("stage_id")
+                for r in rows:
+                    if _json.loads(r["payload"] or "{}").get("stage_id") == src:
+                        _delay(None, r["id"], 1.0)
+                shaped[0] = True
         n[0] += 1
+
+    shaped = [False]
+    directed = bool(ch.pick("cancel.directed", 2))
+
+    def _delay(mtype: Any, rid: Any, secs: float) -> None:
+        from sim import seams as _s
+
+        t = _s.REAL.datetime.fromtimestamp((w.clock.us + int(secs * 1e6)) / 1e6, _s._dt.UTC).isoformat()
+        if rid is not None:
+            w.hwrite("UPDATE queue_messages SET deliver_at = ? WHERE id = ?", (t, rid))
+        else:
+            w.hwrite("UPDATE queue_messages SET deliver_at = ? WHERE message_type = ?", (t, mtype))
+        w.fault("message_delay")
 
     ex.eng.between = between
 
